@@ -862,6 +862,14 @@ func syncResync(run *harness.Run, d *Driver, key string, idx int) {
 		run.Inconclusive("%s: era 1: %s", key, why)
 		return
 	}
+	// the first units of era 1 were committed by a host whose wall clock ran 10 s ahead (leader
+	// change to a host with a slower clock / NTP step back afterwards): their latest records carry
+	// an mtime beyond those of the later units.  mtime is a value the committing host sends; the
+	// double's stored copy is edited while the tool is stopped.
+	s.cl.WaitIdle(20*time.Millisecond, 5*time.Second)
+	skewed := s.skewLatestMtime(s.units[r.Intn(n1-1)].End, 10*time.Second)
+	run.Count("cluster_latest_records_with_skewed_mtime", int64(skewed))
+	s.desc += fmt.Sprintf("; the latest records of the first units of era 1 (%d records) carry mtimes 10 s ahead of the later ones", skewed)
 	// the same instance is told to resynchronise: StartPoint, snapshot, StartPoint, stream
 	sp, err := out.StartPoint(ctx, ids)
 	s.judgeStart(sp, err, "StartPoint on the same output after era 1", "in-process-restart|", base1)
@@ -908,6 +916,27 @@ func syncResync(run *harness.Run, d *Driver, key string, idx int) {
 		return
 	}
 	s.judgeFinal("resynchronisation under the same run id, fresh start")
+}
+
+// skewLatestMtime adds d to the mtime field of every stored latest record whose unit ends at or
+// before upTo; returns how many records were edited.
+func (s *cscen) skewLatestMtime(upTo int64, d time.Duration) int {
+	n := 0
+	for i := 0; i < clusterNodes; i++ {
+		s.cl.Node(i).With(func(dbs []fakeredis.DB) {
+			for k, o := range dbs[0] {
+				if ClassOf([]byte(k)) != KLatest || o.Kind != fakeredis.KHash {
+					continue
+				}
+				end, mt := atoi64(string(o.Hash["end_offset"])), atoi64(string(o.Hash["mtime"]))
+				if end > 0 && end <= upTo && mt > 0 {
+					o.Hash["mtime"] = []byte(fmt.Sprint(mt + int64(d)))
+					n++
+				}
+			}
+		})
+	}
+	return n
 }
 
 func trunc200(s string) string {
